@@ -165,3 +165,18 @@ Proof.
   rewrite (parse_deck_text_split RS wP _ _ [] _ _ Hi Hc).
   eexists. split; [rcompute; reflexivity|rcompute; reflexivity].
 Qed.
+
+Lemma C12_example_like_trcl_ok :
+  loc_imps RS wP (option_tokens "imp:n=1 trcl=(1 0 0)") [(["n"], 1%R)] /\
+  loc_imps RS wP (option_tokens "imp:n=0") [(["n"], 0%R)] /\
+  hd_not_num (option_tokens "imp:n=0").
+Proof.
+  split; [|split; [|reflexivity]].
+  - change (option_tokens "imp:n=1 trcl=(1 0 0)") with (["imp:n"; "1"] ++ "trcl" :: ["1"; "0"; "0"] ++ []).
+    cbn [app]. apply (li_imp RS wP "imp:n" "1" 1%R); [reflexivity|reflexivity|].
+    apply (li_num RS wP "trcl" ["1"; "0"; "0"] [] []); [reflexivity| |exact I|apply li_nil].
+    apply (trcl_local RS wP "trcl" ["1"; "0"; "0"] (TPVals [1; 0; 0; 1; 0; 0; 0; 1; 0; 0; 0; 1]%R));
+      reflexivity.
+  - change (option_tokens "imp:n=0") with ["imp:n"; "0"].
+    apply (li_imp RS wP "imp:n" "0" 0%R); [reflexivity|reflexivity|apply li_nil].
+Qed.
